@@ -244,6 +244,36 @@ pub fn do_connect(ctx: &mut Ctx, ops: &[Op], asynchronous: bool) {
     }
 }
 
+/// the handshake over a transport that accepts only a few bytes per write call (or is not ready at first): the whole IS_ISI
+/// still reaches the transport, and nothing else
+pub fn do_handshake_wire(ctx: &mut Ctx, ops: &[Op], asynchronous: bool, accept: usize) {
+    use crate::transport::{Script, Transport, WEv};
+    let compressed = ops.iter().rev().find_map(|o| if let Op::Mode(c) = o { Some(*c) } else { None }).unwrap_or(true);
+    let line = format!("hs.wire {} {} {}", if asynchronous { "tokio" } else { "blocking" }, accept, if ops.is_empty() { "-".to_string() } else { ops.iter().map(tok).collect::<Vec<_>>().join(",") });
+    ctx.oracle_eval("handshake-wire");
+    let ops2 = ops.to_vec();
+    let isi = match guard(move || build(&ops2, remote()).isi()) { Some(i) => i, None => return };
+    let want = isi_wire(compressed, &expected(ops));
+    // accept == 0: not ready twice, then everything; otherwise `accept` bytes per call
+    let ws: Vec<WEv> = if accept == 0 { vec![WEv::Pending, WEv::Pending] } else { vec![WEv::Accept(accept); 64] };
+    let script = Script::new(vec![], ws);
+    let tr = Transport(script.clone());
+    let codec = Codec::new(if compressed { Mode::Compressed } else { Mode::Uncompressed });
+    let ok = guard(std::panic::AssertUnwindSafe(move || {
+        if asynchronous {
+            let rt = tokio::runtime::Builder::new_current_thread().enable_time().build().unwrap();
+            rt.block_on(async { let mut f = insim::net::tokio_impl::Framed::new(Box::new(tr), codec); f.handshake(isi, Duration::from_secs(5)).await.is_ok() })
+        } else {
+            let mut f = insim::net::blocking_impl::Framed::new(Box::new(tr), codec);
+            f.handshake(isi).is_ok()
+        }
+    }));
+    let out = script.lock().unwrap().out.clone();
+    if ok != Some(true) || out != want {
+        ctx.violation(&format!("c18/handshake-wire/{}", if asynchronous { "tokio" } else { "blocking" }), "over a transport that takes a few bytes per write call the handshake did not put exactly the configured IS_ISI on the wire", &line, &hex(&want), &format!("{:?} {}", ok, hex(&out)));
+    }
+}
+
 fn random_op(rng: &mut Rng) -> Op {
     let names = ["", "a", "insim.rs", "0123456789abcdef", "exactly16chars!!", "héllo wörld", "0123456789abcdefg", "пароль", "pw \u{11b}"];
     match rng.below(14) {
@@ -269,6 +299,7 @@ pub fn run(ctx: &mut Ctx) {
             match w.as_slice() {
                 ["bld", "-"] => do_ops(ctx, &[]),
                 ["bld", ops] => { let v: Vec<Op> = ops.split(',').filter_map(parse_tok).collect(); do_ops(ctx, &v) },
+                ["hs.wire", fl, a, ops] => { let v: Vec<Op> = if *ops == "-" { vec![] } else { ops.split(',').filter_map(parse_tok).collect() }; do_handshake_wire(ctx, &v, *fl == "tokio", a.parse().unwrap_or(1)) },
                 ["connect", fl, ops] => { let v: Vec<Op> = ops.split(',').filter_map(parse_tok).collect(); do_connect(ctx, &v, *fl == "tokio") },
                 _ => {},
             }
@@ -323,6 +354,15 @@ pub fn run(ctx: &mut Ctx) {
         let ops: Vec<Op> = (0..k).map(|_| random_op(&mut ctx.rng)).collect();
         do_ops(ctx, &ops);
     }
+    // the handshake's bytes on a transport that takes them in pieces
+    for asynchronous in [false, true] {
+        for accept in [0usize, 1, 3, 7, 16, 43, 44] {
+            for ops in [vec![], vec![Op::Mode(false)], vec![Op::Flag("mci", true), Op::Pfx(Some('!')), Op::Interval(Some(250)), Op::Iname(Some("verif".into())), Op::Admin(Some("pw".into())), Op::Reqi(9), Op::Mode(false)]] {
+                do_handshake_wire(ctx, &ops, asynchronous, accept);
+            }
+        }
+    }
+    ctx.exhaustive_domains.push("handshake over a scripted transport accepting 1, 3, 7, 16, 43, 44 bytes per call or not ready at first x 3 configurations x both flavours".into());
     // connecting over loopback: tcp / udp with and without local address, both modes, both flavours
     let mut n = 0;
     for asynchronous in [false, true] {
